@@ -114,8 +114,9 @@ func (sc *scen) connectBatch(specs [][2]int) (admitted int) {
 		sc.all = append(sc.all, p)
 	}
 	sc.stepf("connect %d inbound connections at once: %v", len(ps), specs)
-	// every allowConnect has passed its ban lookup, i.e. is inside (or past) its critical
-	// section; none of the peers can have been inserted yet because no handshake has begun
+	// every allowConnect has passed its ban lookup; none of the new peers can have been inserted
+	// yet because no handshake has begun, so all of them are judged against (at least) the peers
+	// that were there before the batch
 	if !tb.waitFor(settleTimeout, func() bool { return tb.ps.banned.Load() >= base+int64(len(ps)) }) {
 		sc.failf("syncer-accept-stalled", "only %d of %d inbound connections reached allowConnect within %v", tb.ps.banned.Load()-base, len(ps), settleTimeout)
 	}
@@ -137,15 +138,24 @@ func (sc *scen) connectBatch(specs [][2]int) (admitted int) {
 		}()
 	}
 	wg.Wait()
-	// canonical linearisation: the allowConnect decisions (all taken against the same peer
-	// set), then the successful insertions, then the refused ones
+	// canonical linearisation: the connections that passed allowConnect, the successful
+	// insertions, then the refusals (at allowConnect or at addPeer).  The peer set only grows
+	// during the batch, so whenever some interleaving explains the observed outcome this one does
+	// (a refusal that saw the set already full sees it full at the end of the batch as well).
 	tb.mu.Lock()
 	for i, p := range ps {
-		sc.emit(fmt.Sprintf("LAllow %d %d true %s", p.id, sc.subKey(p), coqBool(out[i].allowed)))
+		if out[i].allowed {
+			sc.emit(fmt.Sprintf("LAllow %d %d true true", p.id, sc.subKey(p)))
+		}
 	}
 	for i, p := range ps {
 		if out[i].allowed && out[i].added {
 			sc.emit(fmt.Sprintf("LAdd %d true", p.id), fmt.Sprintf("LLoopStart %d true", p.id))
+		}
+	}
+	for i, p := range ps {
+		if !out[i].allowed {
+			sc.emit(fmt.Sprintf("LAllow %d %d true false", p.id, sc.subKey(p)))
 		}
 	}
 	for i, p := range ps {
